@@ -313,7 +313,7 @@ func init() {
 			}
 		}
 		res.Obs["balances"] = bal
-		nodes := map[string]string{}
+		nodes := map[string]map[string]string{}
 		for _, v := range nk.GetAllValidators(ctx) {
 			var ds []string
 			for k, p := range v.RewardDelegators {
@@ -321,14 +321,21 @@ func init() {
 				ds = append(ds, fmt.Sprintf("%s:%d", roleOf(a), p))
 			}
 			sort.Strings(ds)
-			nodes[roleOf(v.Address)] = fmt.Sprintf("status=%d jailed=%v tokens=%s chains=%v url=%s output=%s delegators=%v pubkey=%x unstaking=%d waiting=%v",
-				v.Status, v.Jailed, v.StakedTokens, v.Chains, v.ServiceURL, roleOf(v.OutputAddress), ds, v.PublicKey.RawBytes()[:4], v.UnstakingCompletionTime.Unix(), nk.IsWaitingValidator(ctx, v.Address))
+			ju := ""
+			if si, ok := nk.GetValidatorSigningInfo(ctx, v.Address); ok {
+				ju = fmt.Sprint(si.JailedUntil.Unix())
+			}
+			nodes[roleOf(v.Address)] = map[string]string{"status": fmt.Sprint(int(v.Status)), "jailed": fmt.Sprint(v.Jailed), "tokens": v.StakedTokens.String(), "chains": strings.Join(v.Chains, "+"),
+				"url": v.ServiceURL, "output": roleOf(v.OutputAddress), "delegators": strings.Join(ds, "+"), "pubkey": roleOfPub(v.PublicKey.RawBytes()), "address": roleOf(v.Address),
+				"unstaking": fmt.Sprint(v.UnstakingCompletionTime.Unix()), "waiting": fmt.Sprint(nk.IsWaitingValidator(ctx, v.Address)), "jailed_until": ju}
 		}
 		res.Obs["nodes"] = nodes
-		appsM := map[string]string{}
+		appsM := map[string]map[string]string{}
 		for _, a := range apk.GetAllApplications(ctx) {
-			appsM[roleOf(a.Address)] = fmt.Sprintf("status=%d jailed=%v tokens=%s chains=%v maxrelays=%s pubkey=%x unstaking=%d", a.Status, a.Jailed, a.StakedTokens, a.Chains, a.MaxRelays, a.PublicKey.RawBytes()[:4], a.UnstakingCompletionTime.Unix())
+			appsM[roleOf(a.Address)] = map[string]string{"status": fmt.Sprint(int(a.Status)), "jailed": fmt.Sprint(a.Jailed), "tokens": a.StakedTokens.String(), "chains": strings.Join(a.Chains, "+"),
+				"maxrelays": a.MaxRelays.String(), "pubkey": roleOfPub(a.PublicKey.RawBytes()), "address": roleOf(a.Address), "unstaking": fmt.Sprint(a.UnstakingCompletionTime.Unix())}
 		}
+		res.Obs["blocktime"] = fmt.Sprint(r.time.Unix())
 		res.Obs["apps"] = appsM
 	}
 }
